@@ -25,7 +25,12 @@ RULE = (
     "(abstract pool extracted from the real objects) and per-operation outcome class, %tmp counter, DEF_STORE growth, tracing "
     "flag, frame rebinding, len(ENGINE.parsing) and the engine's checked cache (return-vars-inserted flag, input_tys growth) are "
     "compared. thorough: "
-    "additionally every ordered pair (a, b) of pool definitions as consecutive lowerings. A case = one observed operation; "
+    "additionally every ordered pair (a, b) of pool definitions as consecutive lowerings. Edited files: in the same session a "
+    "file NAME is loaded again and again with another content (a chain of 11 / 61 random small edits of a four-function file: "
+    "operator, constant, arity of a callee, ill-typed body, an extra function, lines inserted at the top — most edits keep "
+    "every definition on its line) and after every load `check` and `compile` of every function are compared with the same "
+    "version loaded ALONE in a fresh interpreter; a difference is shrunk to the shortest suffix of earlier versions that "
+    "reproduces it in a fresh interpreter. A case = one observed operation; "
     "non-trivial = it is preceded by at least one other operation and has a fresh-process baseline; distinct by the operation "
     "together with its three predecessors"
 )
@@ -40,7 +45,8 @@ ASSUMPTIONS = [
 UNMODELLED = [
     "struct definitions and their generated methods (real-engine tie only)",
     "GlobalConstId / GuppyObjectId / ExistentialVar counters (inventoried by counters_classified; observed not to reach the Hugr)",
-    "DEF_STORE.sources, emulate() (no emulator for /repo output), redefinition of a name between operations",
+    "DEF_STORE.sources, emulate() (no emulator for /repo output)",
+    "redefinition between operations is modelled only as 'the pool changes' (vsys): the model has no notion of source text, file names or line numbers; caches keyed by them are excluded by the inventory session_globals_classified and searched for by the edited-file run",
     "the types_to_check_worklist and the exact interleaving of on-demand checks during tracing",
 ]
 TRUSTED_EXTRA = [
@@ -61,6 +67,11 @@ MANIFEST = {
     "mechanism is needed; three of them were real defects found by this proof attempt and fixed in /repo (frame leak of recursive "
     "nested functions; tracing state not restored; block-port order depending on the session's %tmp counter: "
     "compile_history_free_false_for_name_order is the kernel-checked counter-history for the pre-fix configuration). "
+    "compile_version_history_free: the same for histories of operations on ANY earlier versions of the definitions (the program "
+    "text changes between operations), on the premise that the model's State is all that survives — re-checked by the "
+    "regenerated inventories session_globals_classified (module-level containers mutated from functions, functools.cache memo "
+    "tables), counters_classified and reset_clears_all_caches; position_keyed_source_cache_observable shows what a source cache "
+    "keyed by position would do. "
     "What only the search covers: that the real engine behaves like the model — checked on every run by running the same random "
     "operation sequence on the real engine and the model and comparing per-operation state projections, and by comparing every "
     "real lowering after a history with a fresh-process lowering (canonical Hugr).",
@@ -239,6 +250,103 @@ def _judge_subprocess_case(ctx, case, r, base_cache):
                            "fresh": _strip(base)})
 
 
+# ----------------------------------------------------------------------------------------------- edited files
+def _edit_mutate(rng, v):
+    """the next version of the edited file: one or two small edits; most keep every definition on its line"""
+    import c11_pool as P
+    w = dict(v)
+    for _ in range(rng.choice([1, 1, 2])):
+        k = rng.choice(["op", "op", "k", "k", "arity", "bad", "extra", "shift", "same"])
+        if k == "op":
+            w["op"] = rng.choice([o for o in P.EDIT_OPS if o != w["op"]])
+        elif k == "k":
+            w["k"] = rng.choice([x for x in (1, 2, 3, 5, 7, 11) if x != w["k"]])
+        elif k == "arity":
+            w["arity"] = 3 - w["arity"]
+        elif k == "bad":
+            w["bad"] = 1 - w["bad"]
+        elif k == "extra":
+            w["extra"] = 1 - w["extra"]
+        elif k == "shift":
+            w["shift"] = rng.choice([x for x in (0, 1, 2) if x != w["shift"]])
+    return w
+
+
+_EDIT_V0 = {"shift": 0, "op": "+", "k": 1, "arity": 1, "bad": 0, "extra": 0}
+
+
+def _edit_fresh(versions):
+    """observation of each distinct version loaded ALONE in a fresh interpreter"""
+    keys = sorted({json.dumps(v, sort_keys=True) for v in versions})
+    with cf.ThreadPoolExecutor(8) as ex:
+        res = list(ex.map(lambda k: _sub(["edit", json.dumps({"hist": [], "final": json.loads(k)})])["final"], keys))
+    return dict(zip(keys, res))
+
+
+def _edit_judge(ctx, tag, hist, v, obs, fresh, state):
+    """obs: what the session observed for version v after the versions of `hist`; fresh: the fresh-interpreter result"""
+    for name in sorted(fresh):
+        real, base = obs.get(name, {"kind": "missing"}), fresh[name]
+        ctx.count(["edit", tag, hist[-2:], v, name], nontrivial=bool(hist), kind="edit:" + name.split(":")[0] + ":" + _cls_real(real))
+        if _strip(real) == _strip(base) or state["n"] >= 2:
+            continue
+        state["n"] += 1
+        # shortest history that reproduces in a fresh interpreter: the previous version only, then longer suffixes
+        short, shown = None, real
+        for k in (1, 2, 4, len(hist)):
+            if k > len(hist):
+                continue
+            h = hist[len(hist) - k:]
+            r = _sub(["edit", json.dumps({"hist": h, "final": v})])["final"].get(name, {"kind": "missing"})
+            if _strip(r) != _strip(base):
+                short, shown = h, r
+                break
+        h = short if short is not None else hist
+        ctx.violation(
+            "edit:" + json.dumps([h, v, name], sort_keys=True),
+            f"`{name}` of an edited file (re-loaded under the same file name) differs from a fresh session after "
+            f"{len(h)} earlier version(s) of the file were compiled: {_short(shown)} vs fresh {_short(base)}",
+            {"edit_hist": h, "edit_final": v, "name": name, "after_history": _strip(shown), "fresh": _strip(base),
+             "final_source": __import__("c11_pool").edit_source(v),
+             "previous_source": __import__("c11_pool").edit_source(h[-1]) if h else "",
+             "reproduced_in_fresh_interpreter": short is not None})
+
+
+def _edit_chains(ctx, chains, tag):
+    """each chain of versions is replayed in its own interpreter (all but the last as history)"""
+    fresh = _edit_fresh([c[-1] for c in chains])
+    with cf.ThreadPoolExecutor(8) as ex:
+        res = list(ex.map(lambda c: _sub(["edit", json.dumps({"hist": c[:-1], "final": c[-1]})])["final"], chains))
+    state = {"n": 0}
+    for c, r in zip(chains, res):
+        _edit_judge(ctx, tag, c[:-1], c[-1], r, fresh[json.dumps(c[-1], sort_keys=True)], state)
+
+
+def _edit_phase(ctx, more):
+    import c11_pool as P
+    rng = ctx.rng
+    # corpus chains (own interpreter each)
+    chains = []
+    cdir = os.path.join(vlib.VERIF, "corpus", "c11")
+    if os.path.isdir(cdir) and more == 1:
+        for fn in sorted(os.listdir(cdir)):
+            c = json.load(open(os.path.join(cdir, fn)))
+            if "edit_hist" in c:
+                chains.append(c["edit_hist"] + [c["edit_final"]])
+    if chains:
+        _edit_chains(ctx, chains, "corpus")
+    # one long chain of edits in THIS session
+    vs = [dict(_EDIT_V0, op=rng.choice(P.EDIT_OPS), k=rng.choice([1, 2, 3]))]
+    for _ in range(ctx.n(10, 60) * more):
+        vs.append(_edit_mutate(rng, vs[-1]))
+    obs = [P.edit_observe(v) for v in vs]
+    fresh = _edit_fresh(vs)
+    state = {"n": 0}
+    for i, (v, o) in enumerate(zip(vs, obs)):
+        _edit_judge(ctx, "session", vs[:i], v, o, fresh[json.dumps(v, sort_keys=True)], state)
+    ctx.extra["edit_versions"] = len(vs)
+
+
 # ----------------------------------------------------------------------------------------------- tie
 def tie(ctx, more: int = 1):
     import time
@@ -253,10 +361,14 @@ def tie(ctx, more: int = 1):
     cdir = os.path.join(vlib.VERIF, "corpus", "c11")
     if os.path.isdir(cdir) and more == 1:
         for fn in sorted(os.listdir(cdir)):
-            cases.append(json.load(open(os.path.join(cdir, fn))))
+            c = json.load(open(os.path.join(cdir, fn)))
+            if "ops" in c:
+                cases.append(c)
     if ctx.replay_in:
         rp = ctx.replay_in["replay"]
         cases = [{"ops": rp["ops"], "target": rp["target"], "observe": rp.get("observe", "lower")}] if "ops" in rp else []
+        if "edit_hist" in rp:
+            _edit_chains(ctx, [rp["edit_hist"] + [rp["edit_final"]]], "replay")
     if ctx.replay_in:
         targets = []
     elif ctx.quick and more == 1:
@@ -362,6 +474,10 @@ def tie(ctx, more: int = 1):
     realB = [P.run_op(op) for op in opsB]
     _oracle(ctx, opsB, realB, base, "B", prefix=opsA)
     tm["oracle+B"] = round(time.time() - t0, 1)
+    # ---- edited source files: the same file name is loaded again with another content (in this very session, whose
+    # engine has been through histories A and B)
+    _edit_phase(ctx, more)
+    tm["edit"] = round(time.time() - t0, 1)
     pr = P.session_probe()
     if pr["tracing_active"] or pr["pool_names_rebound"]:
         ctx.violation("session-probe:" + json.dumps(pr, sort_keys=True),
